@@ -111,12 +111,14 @@ def main() -> int:
     core.write_evidence(prop, args.tier, seed, st, rep, wall, 0 if exit_code == 0 else 1,
                         checker_cmd=f"cd lean && lake build {mod.LEAN_MODULE} && #print axioms on {len(mod.THEOREMS)} theorems",
                         extra_assumptions=getattr(mod, "ASSUMPTIONS", []),
-                        level=getattr(mod, "LEVEL", "proof"))
+                        level=getattr(mod, "LEVEL", "proof"), known_hits=len(known_hits),
+                        known_ids=sorted({k["id"] for k, _ in known_hits}))
     for l in out_lines:
         print(l)
     print(f"{prop} tier={args.tier} seed={seed}: theorems {st.discharged}/{len(st.theorems)} "
           f"cases={rep.evaluations} nontrivial={len(rep.nontrivial)} mismatches={len(rep.corr_mismatches)} "
-          f"oracle_failures={len(rep.oracle_failures)} wall={wall:.1f}s -> exit {exit_code}")
+          f"oracle_failures={len(rep.oracle_failures) - len(known_hits)} known_finding_hits={len(known_hits)} "
+          f"wall={wall:.1f}s -> exit {exit_code}")
     return exit_code
 
 
